@@ -182,12 +182,17 @@ def rp66_source(variant):
     return data, 'src.dlis', passes
 
 
+DIP_NAMES = ['FC0', 'FC1', 'FC2', 'FC3', 'FC4', 'STAT', 'REF', 'REFC', 'EMEX', 'PADP', 'TEMP', 'FEP1', 'FEP2', 'RAC1', 'RAC2']
+
+
 def lis_source(variant):
     from props import c06
     cfg = [c06.chan('DEPT', 68, units='FEET'), c06.chan('GR  ', 68, units='GAPI'), c06.chan('SP  ', 79, 2, 1, units='MV  ')]
     indirect = variant.get('indirect', 0)
     if variant.get('perm'):
         cfg = [cfg[0], cfg[2], cfg[1]]
+    if variant.get('dip'):
+        cfg = cfg + [c06.chan('RHDT', variant['dip'], units='    ')]
     if indirect:
         cfg = cfg[1:]
     n = variant.get('n', N)
@@ -211,6 +216,14 @@ def lis_source(variant):
         if sp['indirect']:
             chans.append({'name': 'X', 'values': [[c06.x_of(sp, f)] for f in range(sp['n'])], 'int': False, 'implied': True})
         for c, ch in enumerate(sp['channels']):
+            if ch['code'] in c06.DIP_VALUES:
+                # a dipmeter channel is written as one column per sub-channel: 5 fast ones (16 samples each, sample-major on the
+                # tape) and, for code 234, 10 slow ones
+                for sc, nm in enumerate(DIP_NAMES[:5 if ch['code'] == 130 else 15]):
+                    vals = [[model['matrix'][f][c][sa * 5 + sc] for sa in range(16)] if sc < 5 else [model['matrix'][f][c][80 + sc - 5]]
+                            for f in range(sp['n'])]
+                    chans.append({'name': nm, 'values': vals, 'int': False, 'index': c, 'select': ch['mnem'].strip()})
+                continue
             chans.append({'name': ch['mnem'].strip(), 'values': [list(model['matrix'][f][c]) for f in range(sp['n'])],
                           'int': False, 'index': c})
         passes.append({'n': sp['n'], 'channels': chans, 'ident': str(k), 'x_units': 'FEET', 'fpr': sp['fpr'], 'spec': sp,
@@ -331,7 +344,7 @@ def expected_columns(fmt, p, requested):
     """Indexes into p['channels'] of the columns a LAS file must hold: X plus the requested channels, in frame order."""
     if not requested:
         return list(range(len(p['channels'])))
-    return [i for i, ch in enumerate(p['channels']) if i == 0 or ch['name'].strip() in {r.strip() for r in requested}]
+    return [i for i, ch in enumerate(p['channels']) if i == 0 or ch.get('select', ch['name']).strip() in {r.strip() for r in requested}]
 
 
 def check_conversion(fmt, variant, opts, workdir, before=()):
@@ -538,6 +551,14 @@ def gen_cases(tier, fmt):
                                'opts': {'sel': sel, 'channels': chs, 'reduction': red, 'width': width, 'fmt': ff}}
     if fmt == 'rp66':
         yield {'variant': {'origin': 'minimal'}, 'opts': dict(DEFAULT)}
+    if fmt == 'lis':
+        # dipmeter channels: one LAS column per sub-channel
+        for dip in (130, 234):
+            for extra in ({}, {'indirect': 68}, {'perm': True}):
+                for chs in ([], ['RHDT'], ['GR  '], ['RHDT', 'SP  ']):
+                    for red in ('first', 'mean', 'max'):
+                        for sel in (None, ['slice', 1, None, 2]):
+                            yield {'variant': dict(extra, dip=dip, n=5), 'opts': dict(DEFAULT, sel=sel, channels=chs, reduction=red)}
     # part Q: conversions that follow other conversions in the same process (same frame array identity and channel count,
     # channels in another order; a different length; a second pass)
     alts = [{}, {'perm': True}, {'n': 4}, {'two': True}] + ([{'indirect': 68}, {'indirect': 68, 'perm': True}] if fmt == 'lis' else [])
